@@ -370,24 +370,67 @@ def rule_T8(ctx: Ctx) -> None:
     ok = ok and len(g) == 1 and X.same_expr(g[0].test, "start_index == 0")
     ctx.judge(rel, ok, {"previous_at_start": X.U(prev[0]) if prev else None}, "Relative uses (previous, current, next) = solution[i-1:i+2]; at the start the agent is assumed to face NORTH (previous = one row below)")
     sst = ss.methods["_single_step_tokens"]
-    lc = [n for n in ast.walk(sst.node) if isinstance(n, ast.ListComp)]
-    ok = len(lc) >= 1 and X.same_expr(lc[0], "[step_tokenizer.to_tokens(maze, i, j, coord_tokenizer=coord_tokenizer) for step_tokenizer in self.step_tokenizers]")
-    ctx.judge(sst, ok, {"per_step": X.U(lc[0])[:120] if lc else None}, "each step is rendered by every configured step tokenizer, in the configured order, for the same (i, j)")
-    # delimiters of a step: intra after every step-tokenizer output (interleaved), pre before, post after
-    body_txt = X.U(sst.node)
-    il = [n for n in ast.walk(sst.node) if isinstance(n, ast.Assign) and isinstance(n.targets[0], ast.Subscript) and "step_rep_tokens_and_intra" in X.U(n.targets[0])]
-    forms = {}
-    for a_ in il:
-        sl = a_.targets[0].slice
-        if isinstance(sl, ast.Slice):
-            forms[(N.const_int(sl.lower) or 0, N.const_int(sl.step))] = X.U(a_.value)
-    ok_il = forms.get((0, 2)) == "step_rep_tokens" and forms.get((1, 2), "").replace(" ", "") == "[VOCAB.PATH_INTRA]*len(step_rep_tokens)"
-    alloc = [n for n in ast.walk(sst.node) if isinstance(n, (ast.Assign, ast.AnnAssign)) and X.U(n.targets[0] if isinstance(n, ast.Assign) else n.target) == "step_rep_tokens_and_intra"]
-    ok_al = len(alloc) == 1 and X.same_expr(alloc[0].value, "[None] * (len(step_rep_tokens) * 2)")
-    at = [n for n in ast.walk(sst.node) if isinstance(n, (ast.Assign, ast.AnnAssign)) and X.U(n.targets[0] if isinstance(n, ast.Assign) else n.target) == "all_tokens"]
-    ok_pp = len(at) == 1 and X.same_expr(at[0].value, "[*empty_sequence_if_attr_false((VOCAB.PATH_PRE,), self, 'pre'), *flatten(step_rep_tokens), *empty_sequence_if_attr_false((VOCAB.PATH_POST,), self, 'post')]")
-    guard = [n for n in sst.node.body if isinstance(n, ast.If) and X.U(n.test) == "self.intra"]
-    ctx.judge(sst, ok_il and ok_al and ok_pp and len(guard) == 1, {"interleave": {str(k): v for k, v in forms.items()}, "pre_post": X.U(at[0].value)[:120] if at else None},
+    # delimiters of a step: intra after every step-tokenizer output (interleaved), pre before, post after.
+    # Decided by abstract evaluation of the method body over symbolic token lists (3 abstract step tokenizers, each rendering two
+    # distinct symbolic tokens) under the 8 settings of (intra, pre, post): parametric in the tokens, invariant under the idiom used.
+    from sa.fold import Evaluator, Obj, Unknown
+
+    def _flat(x):
+        out = []
+        for y in x:
+            if isinstance(y, (list, tuple)):
+                out.extend(_flat(y))
+            else:
+                out.append(y)
+        return out
+
+    def _call(ev, node, env):
+        d = dotted_of(node.func) or ""
+        if isinstance(node.func, ast.Attribute) and node.func.attr == "to_tokens":
+            recv = ev.ev(node.func.value, env)
+            if isinstance(recv, Obj) and recv.cls.startswith("ST"):
+                a_ = [ev.ev(x, env) for x in node.args]
+                k_ = {kw.arg: ev.ev(kw.value, env) for kw in node.keywords}
+                names = ["maze", "start_index", "end_index", "coord_tokenizer"]
+                for nm, v in zip(names, a_):
+                    k_[nm] = v
+                calls_seen.append((recv.cls, tuple(k_.get(nm) for nm in names)))
+                return [f"{recv.cls}.a", f"{recv.cls}.b"]
+        if d == "flatten":
+            return _flat(ev.ev(node.args[0], env))
+        if d == "empty_sequence_if_attr_false" and len(node.args) == 3:
+            seq, obj, attr = (ev.ev(a, env) for a in node.args)
+            return seq if obj.attrs[attr] else ()
+        return NotImplemented
+
+    table = []
+    calls_seen: list = []
+    ok_tab: bool | None = True
+    params = [a.arg for a in sst.node.args.args]
+    for intra in (False, True):
+        for pre in (False, True):
+            for post in (False, True):
+                sts = tuple(Obj(f"ST{k}") for k in (1, 2, 3))
+                env = {"self": Obj("StepSequence", {"step_tokenizers": sts, "intra": intra, "pre": pre, "post": post}),
+                       "VOCAB": Obj("VOCAB", {k: f"<{k}>" for k in ("PATH_PRE", "PATH_INTRA", "PATH_POST")})}
+                for p_ in params[1:]:
+                    env[p_] = f"<{p_}>"
+                want = (["<PATH_PRE>"] if pre else []) + [t for o in sts for t in ([f"{o.cls}.a", f"{o.cls}.b"] + (["<PATH_INTRA>"] if intra else []))] + (["<PATH_POST>"] if post else [])
+                try:
+                    got = Evaluator({"__call__": _call}).run_body(X.body_wo_doc(sst.node), env)
+                    got = list(got) if isinstance(got, (list, tuple)) else got
+                except Unknown as e:
+                    got, ok_tab = f"unknown: {e}"[:120], (None if ok_tab is not False else False)
+                    table.append({"intra": intra, "pre": pre, "post": post, "result": got})
+                    continue
+                if got != want:
+                    ok_tab = False
+                    table.append({"intra": intra, "pre": pre, "post": post, "result": got, "expected": want})
+    p4 = tuple(f"<{p_}>" for p_ in params[1:5])
+    ok_calls = None if ok_tab is None else (len(calls_seen) == 24 and all(c == (f"ST{1 + i_ % 3}", p4) for i_, c in enumerate(calls_seen)))
+    ctx.judge(sst, ok_calls, {"calls": [f"{c[0]}.to_tokens{c[1]}" for c in calls_seen[:3]]},
+              "each step is rendered by every configured step tokenizer, once, in the configured order, for the same (maze, i, j, coord_tokenizer)")
+    ctx.judge(sst, ok_tab, {"configurations": 8, "deviations": table[:3]},
               "a step group is [PATH_PRE?] t1 [INTRA] t2 [INTRA] ... [PATH_POST?]: under intra every step-tokenizer output is followed by one PATH_INTRA (even slots outputs, odd slots delimiters)",
               "delimiters are misplaced/miscounted inside a step: the path region cannot be segmented back into steps")
     ld = ss.methods["_leading_tokens"]
